@@ -15,7 +15,7 @@ KEY_POOLS = {
     "kebab": ["user-id", "created-at", "x-value", "item-list"],
     "keyword": ["class", "list", "type", "from", "def", "dict", "date", "schema", "None", "pk"],
     "unicode": ["имя", "größe", "naïve", "数", "ключ"],
-    "odd": ["1st", "9lives", "a b", "a.b", "_private", "__dunder__", "$ref", "@id", "x!", "0day", "00x", "2nd_", "_0"],
+    "odd": ["1st", "9lives", "a b", "a.b", "_private", "__dunder__", "$ref", "@id", "x!", "0day", "00x", "2nd_", "_0", "$", "-"],
 }
 SCALAR_KINDS = ["int", "float", "bool", "null", "str_plain", "str_long", "str_int", "str_float", "str_bool",
                 "str_date", "str_datetime", "str_time"]
